@@ -51,6 +51,8 @@ Inductive op :=
   | ParApply (s f : Z) | ParMap (d s f : Z) | ParMapRef (d s f : Z)
   | ParIterElements (s : Z) | ParIterElementsMut (s f : Z) | IntoParIterElements (s : Z)
   | ParIterElementsIdx (s : Z) | ParIterElementsMutIdx (s f : Z) | IntoParIterElementsIdx (s : Z)
+  (* rows (axis 0) or columns (axis 1) of iter_rows_mut / iter_cols_mut dealt to nthreads threads, every element mutated by f *)
+  | ThreadedVectorsMut (s nthreads f axis : Z)
   (* lifetime *)
   | DropOp (s : Z).
 
@@ -303,6 +305,8 @@ Definition step (p : pool) (o : op) : pool * obs :=
   | ParIterElementsIdx s => need1 s (fun m => (p, obs_idx_items (iter_elements_with_index m)))
   | ParIterElementsMutIdx s f => need1 s (fun m => (put p s (Some (apply (fn1 f) m)), obs_idx_items (iter_elements_with_index m)))
   | IntoParIterElementsIdx s => need1 s (fun m => (put p s None, obs_idx_items (iter_elements_with_index m)))
+  (* every element belongs to exactly one yielded vector, every vector to exactly one thread: the outcome is `apply` *)
+  | ThreadedVectorsMut s _ f _ => need1 s (fun m => (put p s (Some (apply (fn1 f) m)), OUnit))
   (* ----- lifetime ----- *)
   | DropOp s => need1 s (fun m => (put p s None, OUnit))
   end.
